@@ -1,5 +1,6 @@
 import Iec.Lemmas.Asdu
 import Iec.Props.C01
+import Iec.Gen.TypeSizes
 /-
 C02 — Parsing untrusted ASDU bytes is total, memory-safe and exact about truncation.
 
@@ -150,5 +151,28 @@ theorem coverage : ∀ e ∈ typeTable, noSeg e.fields = true ∨ e.typeId = 125
 /-- non-vacuity: a truncated SQ=1 M_SP_NA_1 (type 1, two elements announced, one present) -/
 example : let a : Asdu := ⟨⟨2, 2, 3, 249⟩, [1, 0x82, 3, 0, 1, 0, 100, 0, 0, 0x11]⟩
     a.getElement 0 = some (100, [1, 0x10]) ∧ a.getElement 1 = none := by decide
+
+/-! ### the sizes the C source uses are the sizes of the layout table (translator tie, regenerated on every run) -/
+
+/-- one row extracted from cs101_information_objects.c agrees with the model's table: same type, the decoder's
+`minSize` constant is the fixed size of the fields, the encoder's space guard is that size plus the table's
+`guardExtra` (the same for a sequence element and an element with object address - except C_TS_TA_1, whose
+sequence-branch constant in the source is 2 although 9 octets are written: that branch cannot be reached through the
+public API, the type's object address is fixed at 0 and a second element of a sequence is refused by the address
+continuity test first; recorded as an observation in DESIGN.md), a variable part exists exactly for
+the segment type, and the decoder counts the object address conditionally exactly for the types with a sequence form -/
+def SizeOk (x : Iec.Gen.SrcSize) : Bool :=
+  match lookup x.typeId with
+  | none => false
+  | some e =>
+    x.name == e.name && x.decMin == fixedSize e.fields && x.encIoa == fixedSize e.fields + e.guardExtra &&
+    (x.encSeq == x.encIoa || x.typeId == 107) && x.encVar == !(noSeg e.fields) && x.decSeqCond == (e.cat == .seq)
+
+/-- **every size constant in the current C source of the encoders and decoders is the one the model's layout table
+gives**, for all 67 types; `Iec.Gen.srcSizes` is regenerated from /repo by translate/type_sizes.py before this file is
+compiled, so an edited constant in the source makes this proof fail -/
+theorem source_sizes_match_table :
+    Iec.Gen.srcSizes.all SizeOk = true ∧ Iec.Gen.srcSizes.map (·.typeId) = typeTable.map (·.typeId) := by
+  decide +kernel
 
 end Iec.Props.C02
